@@ -95,7 +95,8 @@ def cfg_C01(tier, rng):
     return [dict(name='bundles', charts=gc.family_f2(rng, k) + gc.family_nested(rng, 40 if tier == QUICK else 500)
                  + shipped(need=lambda c: any(t['gk'] == 'oracle' for t in c['trans']), max_oracle=6),
                  consts=dict(MaxQ=1, MaxLevel=6 if tier == QUICK else 8),
-                 variants=[dict(variant='api', pool='chars')],
+                 variants=[dict(variant='api', pool='chars'), dict(variant='api_edit', pool='chars')],
+                 jobs_for=(lambda ci, h, r: [dict(variant=('api', 'api_edit')[(ci + len(h)) % 2], pool='chars')]) if tier == QUICK else None,
                  random=dict(count=150 if tier == QUICK else 1500, length=12,
                              family=lambda r, kk: gc.family_f3(r, kk, nmin=5, nmax=9))),
             # the same guard text on several transitions whose values differ (time predicates relative to the source)
@@ -111,6 +112,7 @@ def cfg_C04(tier, rng):
     charts = [c for c in gc.family_f2(rng, 3 * k, max_shared=3, max_eventless=1)
               if has_orthogonal(c) or rng.random() < 0.3][:k]
     charts += gc.family_nested(rng, 120 if tier == QUICK else 1500)
+    charts += gc.family_fanout(rng, 16 if tier == QUICK else 120)
     return [dict(name='bundles', charts=charts,
                  consts=dict(MaxQ=1, MaxLevel=6 if tier == QUICK else 8),
                  variants=[dict(variant='api')],
@@ -203,7 +205,7 @@ def cfg_C08(tier, rng):
     ship = shipped(need=lambda c: sum(c['spre']) + sum(c['spost']) + sum(c['sinv']) > 0, max_oracle=3)
     return [dict(name='contracts', charts=charts + rich + ship,
                  consts=dict(MaxQ=1, MaxCFail=12 if tier == QUICK else 16, MaxLevel=5 if tier == QUICK else 7),
-                 variants=[dict(variant='api', shadow=True)],
+                 variants=[dict(variant='api', shadow=True, device=True)],
                  random=dict(count=150 if tier == QUICK else 1500, length=14, pfail=0.3,
                              family=lambda r, kk: gc.family_f3(r, kk, nmin=5, nmax=8, contracts=True)))]
 
@@ -214,13 +216,13 @@ def cfg_C09(tier, rng):
     charts = with_contracts(base, rng)
     rich = gc.family_f3(rng, 10 if tier == QUICK else 80, nmin=3, nmax=5, tmin=3, tmax=5, nev=2,
                         max_oracle=1, contracts=True)
-    tw = dict(rel='ignore', kw=dict(ignore_contract=True))
+    tw = dict(rel='ignore', kw=dict(ignore_contract=True, device=True))
     timed = gc.family_f3(rng, 10 if tier == QUICK else 80, nmin=3, nmax=5, tmin=4, tmax=6, nev=2,
                          max_oracle=1, contracts=True, time_guards=True)
     timed += gc.family_idle(rng, 12 if tier == QUICK else 60, contracts=True)
     return [dict(name='transparent', charts=charts + rich,
                  consts=dict(MaxQ=1, MaxLevel=6 if tier == QUICK else 7, Twin='ignore'),
-                 variants=[dict(variant='api', twin=tw)],
+                 variants=[dict(variant='api', device=True, twin=tw)],
                  random=dict(count=150 if tier == QUICK else 1500, length=14,
                              family=lambda r, kk: gc.family_f3(r, kk, nmin=5, nmax=8, contracts=True))),
             dict(name='transparent_timed', charts=timed,
@@ -346,7 +348,9 @@ def cfg_C18(tier, rng):
         ats = {n - 1}
         if n > 2:
             ats.add(r.randint(1, n - 2))
-        return [dict(variant='api', fork=dict(at=a, mode=('pickle', 'deepcopy')[(a + n + i) % 2]))
+        # (some snapshots are taken of interpreters that ignore their contracts: the copy must ignore them too)
+        return [dict(variant='api', fork=dict(at=a, mode=('pickle', 'deepcopy')[(a + n + i) % 2]),
+                     **({'ignore_contract': True} if (ci + a) % 4 == 0 else {}))
                 for i, a in enumerate(sorted(ats))]
     return [dict(name='fork', charts=charts,
                  consts=dict(MaxQ=1, MaxClk=2, Delays={0, 1}, Advances={1}, MaxLevel=5 if tier == QUICK else 6),
